@@ -73,8 +73,13 @@ def main():
             step("demo fails with the patch", rc != 0, out)
             os.remove(demo_dst)
         if a.pkgs and not a.skip_tests:
-            rc, out = sh("go test -vet=off -count=1 %s" % a.pkgs, cwd=wt)
-            step("existing tests pass with the patch: %s" % a.pkgs, rc == 0, out)
+            FLAKY = ("TestTransactionPoolUnderpricing", "TestTable_closest", "Test_Server")  # flaky in BASELINE.json
+            for attempt in range(3):
+                rc, out = sh("go test -vet=off -count=1 %s" % a.pkgs, cwd=wt)
+                fails = [l.split()[2] for l in out.splitlines() if l.startswith("--- FAIL:")]
+                if rc == 0 or not fails or any(f not in FLAKY for f in fails):
+                    break
+            step("existing tests pass with the patch: %s%s" % (a.pkgs, " (after retrying a baseline-flaky test)" if attempt else ""), rc == 0, out)
         verdicts = {}
         if a.no_check:
             d = os.path.join("/verif/seeded", name, "meta.json")
